@@ -27,6 +27,7 @@ def run(only=None):
         'GenShift.v': lambda: py_shift2coq.generate('/repo'),
         'GenSnippet.v': lambda: py_shift2coq.generate_snippet('/repo'),
         'GenPhase.v': lambda: py_float2coq.generate('/repo'),
+        'GenPhaseOrd.v': lambda: py_float2coq.generate_ord('/repo'),
     }
     res = {}
     os.makedirs(GEN, exist_ok=True)
